@@ -43,6 +43,9 @@ def mix(*parts):
     return int.from_bytes(h, "big")
 
 
+SWEEP_MAX_STEPS = 450
+
+
 def pick_strategy(rng):
     """Swarm: one search strategy per run index, drawn from the run's PRNG."""
     k = rng.random()
@@ -77,6 +80,12 @@ def schedules(scn, program, rng):
     s, viol, stats = scn.run(program, core.PCT(prio_seed, []), chooser())
     yield ["pct", 0, prio_seed, []], s, viol, stats
     n = max(2, s.step)
+    if getattr(scn, "tier", "quick") == "thorough" and n <= SWEEP_MAX_STEPS and rng.random() < 0.08:
+        # thorough tier, short run: *every* single pre-emption point under these priorities, not a sample of them
+        for k in range(1, n):
+            s, viol, stats = scn.run(program, core.PCT(prio_seed, [k]), chooser())
+            yield ["pct-sweep", 1, prio_seed, [k]], s, viol, stats
+        return
     points = sorted(rng.randrange(n) for _ in range(d))
     s, viol, stats = scn.run(program, core.PCT(prio_seed, points), chooser())
     yield ["pct", d, prio_seed, points], s, viol, stats
@@ -159,7 +168,7 @@ def _account(agg, i, program, desc, s, viol, stats, props, known):
         agg["probes"][k] = agg["probes"].get(k, 0) + (1 if n else 0)
     vk = stats.get("verdict") or "completed"
     agg["verdicts"][vk] = agg["verdicts"].get(vk, 0) + 1
-    sk = "%s-%s" % (desc[0], desc[1]) if desc[0] == "pct" else ("walk" if desc[2] else ("walk-sync" if desc[1] else "run-to-block"))
+    sk = "%s-%s" % (desc[0], desc[1]) if desc[0].startswith("pct") else ("walk" if desc[2] else ("walk-sync" if desc[1] else "run-to-block"))
     agg["strategies"][sk] = agg["strategies"].get(sk, 0) + 1
     if len(agg["samples"]) < 2 and stats.get("nontrivial"):
         agg["samples"].append({"run_index": i, "program": program, "strategy": desc,
@@ -462,6 +471,8 @@ def run_check(scn_factory, scn_name, check_id, prop, tier, seed, budget_s, jobs,
     t0 = time.time()
     known, fixed = load_known()
     scn = scn_factory()
+    if getattr(scn, "tier", None) is None:
+        scn.tier = tier
     real_stderr = sys.stderr
     deadline = t0 + budget_s
     ctx = multiprocessing.get_context("fork")
